@@ -47,18 +47,9 @@ def run(repo, rep):
     ci = roles['cls']
     allowed = {roles['acquire'].name, roles['release'].name if roles['release'] else None,
                roles['test'].name if roles['test'] else None, '__init__'}
-    # acquire adds id(param); release removes id(param)
-    for role in ('acquire', 'release'):
-        meth = roles[role]
-        if meth is None:
-            continue
-        p = meth.params[1] if len(meth.params) > 1 else None
-        calls = [c for c in ast.walk(meth.node) if isinstance(c, ast.Call) and isinstance(c.func, ast.Attribute)
-                 and c.func.attr in ('add', 'remove', 'discard')]
-        n += 1
-        ok = len(calls) == 1 and src(calls[0].func.value) == 'self.' + field and src(calls[0].args[0]) == 'id(%s)' % p
-        rep.check(ok, 'C13.b', 'context.%s:id-keyed' % meth.name, meth.where, 'set keyed by id(value)',
-                  '%s does %s' % (meth.name, [src(c) for c in calls]), nontrivial=True)
+    from . import ctxmodel
+    n += ctxmodel.report(repo, rep, 'C13.b', lambda k: k.startswith('visit:') or k.endswith(':keeps:visited') or k.endswith(':returns-new-context'),
+                         'the visited set must be the id()-keyed DFS path shared by all derived contexts')
     # who touches the field
     for f in repo.all_functions():
         for nnode in ast.walk(f.node):
@@ -70,24 +61,6 @@ def run(repo, rep):
                     n += 1
                     rep.fail('C13.b', '%s:touches-visited' % f.qualname, '%s:%d' % (f.module.relpath, nnode.lineno),
                              '%s accesses the visited set directly; only %s may' % (f.key, sorted(x for x in allowed if x)))
-    # derived contexts share the same set: _replace copies every slot by reference
-    rp = ci.methods.get('_replace')
-    n += 1
-    if rp is None:
-        rep.fail('C13.b', 'context._replace:exists', ci.where, '_replace vanished')
-    else:
-        txt = src(rp.node)
-        copies = False
-        for c in ast.walk(rp.node):
-            if isinstance(c, ast.Call) and call_name(c) in ('copy', 'deepcopy', 'copy.copy', 'copy.deepcopy', 'frozenset'):
-                copies = True
-            if isinstance(c, ast.Call) and call_name(c) == 'set' and c.args and 'getattr' in src(c.args[0]):
-                copies = True
-        getattr_copy = 'getattr(self, k)' in txt or 'getattr(self, key)' in txt or 'getattr(self, name)' in txt
-        rep.check(getattr_copy and not copies, 'C13.b', 'context._replace:shares-slots', rp.where,
-                  'derived context reuses every slot value (the set is the DFS path, not a per-level copy)',
-                  '_replace no longer copies unchanged slots by reference (getattr(self, k)) or copies the visited set',
-                  nontrivial=True)
     # nobody passes visited= when deriving a context
     for f in repo.all_functions(core_only=True):
         for c in ast.walk(f.node):
@@ -97,16 +70,7 @@ def run(repo, rep):
                         n += 1
                         rep.fail('C13.b', '%s:passes-visited' % f.qualname, '%s:%d' % (f.module.relpath, c.lineno),
                                  '%s builds a context with its own %s=%s' % (f.key, field, src(k.value)))
-    for mname in ('nested_call', 'use_multiline_strategy', 'assoc'):
-        meth = ci.methods.get(mname)
-        if meth is None:
-            continue
-        n += 1
-        calls = [c for c in ast.walk(meth.node) if isinstance(c, ast.Call) and call_name(c) == 'self._replace']
-        news = [c for c in ast.walk(meth.node) if isinstance(c, ast.Call) and call_name(c) == ci.name]
-        rep.check(len(calls) == 1 and not news, 'C13.b', 'context.%s:derives-through-_replace' % mname, meth.where,
-                  'derived through _replace', '%s does not derive the new context through _replace' % mname)
-    rep.floor('C13.b', n, 5)
+    rep.floor('C13.b', n, 8)
 
     # ---------------------------------------------------------------- C13.c
     n = 0
@@ -124,34 +88,14 @@ def run(repo, rep):
         rep.check(fresh, 'C13.c', 'python_to_sdocs:fresh-visited', '%s:%d' % (pts.module.relpath, c.lineno),
                   'visited set created per call', 'the top-level context is given %s=%s: not a set created for this call'
                   % (field, src(v) if v is not None else ''), nontrivial=True)
-    if init is not None:
-        a = init.node.args
-        pos = a.args
-        defaults = dict(zip([x.arg for x in pos[len(pos) - len(a.defaults):]], a.defaults))
-        n += 1
-        d = defaults.get(field)
-        rep.check(d is not None and src(d) == 'None', 'C13.c', 'context.__init__:no-mutable-default', init.where,
-                  'default is None, not a shared set', 'constructor default for %s is %s' % (field, src(d) if d is not None else '<required>'),
-                  nontrivial=True)
-        # if visited is None: visited = set()
-        ok = False
-        for s in ast.walk(init.node):
-            if isinstance(s, ast.If) and src(s.test) in ('%s is None' % field,) and \
-                    any(isinstance(x, ast.Assign) and src(x.targets[0]) == field and src(x.value) == 'set()' for x in s.body):
-                ok = True
-        n += 1
-        rep.check(ok, 'C13.c', 'context.__init__:none-means-new-set', init.where, 'None replaced by a new set()',
-                  'constructor no longer replaces a None %s by a new set()' % field)
-        stores = [s for s in ast.walk(init.node) if isinstance(s, ast.Assign) and src(s.targets[0]) == 'self.' + field]
-        n += 1
-        rep.check(len(stores) == 1 and src(stores[0].value) == field, 'C13.c', 'context.__init__:stores-given-set', init.where,
-                  'stores the set it was given', 'constructor stores %s' % [src(s.value) for s in stores])
+    n += ctxmodel.report(repo, rep, 'C13.c', lambda k: k in ('ctor:fresh-visited', 'ctor:stores:visited'),
+                         'every top-level call must get its own visited set')
     for name, vals in m.assigns.items():
         v = vals[-1]
         if isinstance(v, ast.Call) and call_name(v) == 'set' and 'visit' in name.lower():
             n += 1
             rep.fail('C13.c', 'module-level-set:%s' % name, m.relpath, 'module-level visited set %s' % name)
-    rep.floor('C13.c', n, 5)
+    rep.floor('C13.c', n, 4)
 
     # ---------------------------------------------------------------- C13.d
     n = 0
